@@ -91,13 +91,14 @@ func (h *harness) mkTx(spec string, idx int) *models.TransactionResponse {
 	case "ms":
 		tx.Type = uint64(transaction.TypeMultisend)
 		tx.From = addr(p[1])
-		any := models.ProtobufAny{"@type": "type.googleapis.com/api_pb.MultiSendData", "list": []interface{}{}}
+		any := models.ProtobufAny{"@type": "type.googleapis.com/api_pb.MultiSendData", "list": []interface{}{
+			map[string]interface{}{"coin": map[string]interface{}{"id": "1", "symbol": "X"}, "to": otherAddr, "value": "1000"}}} // Minter admits 1..100 items
 		tx.Data = &any
 	case "em":
 		tx.Type = uint64(transaction.TypeEditMultisig)
 		tx.From = addr(p[1])
 		tx.Payload = strfmt.Base64(p[2])
-		any := models.ProtobufAny{"@type": "type.googleapis.com/api_pb.EditMultisigData", "threshold": "667", "weights": []interface{}{}, "addresses": []interface{}{}}
+		any := models.ProtobufAny{"@type": "type.googleapis.com/api_pb.EditMultisigData", "threshold": "667", "weights": []interface{}{"1000"}, "addresses": []interface{}{otherAddr}}
 		tx.Data = &any
 	default:
 		tx.Type = uint64(transaction.TypeDelegate)
@@ -243,6 +244,20 @@ func (h *harness) exec(line string) string {
 		}
 		h.monitorCommits(log)
 		return "commits " + strings.Join(l, ";") + " final " + final.String()
+	case "m_relay":
+		base := h.persisted
+		claims, commits, final := h.runRelay()
+		h.base = base
+		h.lastLog = commits
+		if len(commits) > 0 {
+			h.persisted = commits[len(commits)-1]
+		}
+		var l []string
+		for _, c := range commits {
+			l = append(l, c.String())
+		}
+		h.monitorRelay(claims, commits, final)
+		return "relay claims " + claimsString(claims) + " commits " + strings.Join(l, ";") + " final " + final.String()
 	case "m_restart":
 		k := int(u(w[1]))
 		if k < len(h.lastLog) {
@@ -415,7 +430,7 @@ func genHistory(r *rand.Rand, h *harness, nops int, do func(string) string) {
 			} else {
 				do(fmt.Sprintf("m_block %d %s", height, strings.Join(txs, ";")))
 			}
-		case x < 80:
+		case x < 72:
 			// the hub acknowledged some nonce between start and what exists
 			ack := uint64(0)
 			if r.Intn(5) > 0 {
@@ -425,7 +440,9 @@ func genHistory(r *rand.Rand, h *harness, nops int, do func(string) string) {
 				}
 			}
 			do(fmt.Sprintf("m_resync %d", ack))
-		case x < 88:
+		case x < 86:
+			do("m_relay")
+		case x < 92:
 			if len(h.lastLog) > 0 {
 				do(fmt.Sprintf("m_restart %d", r.Intn(len(h.lastLog))))
 			}
